@@ -11,8 +11,8 @@ BOUNDED_TECH = "run-time contracts on the real functions over an exhaustive smal
 
 CHECKS = {
     "C19": dict(level="proof", technique=PROOF_TECH, design="DESIGN.md §5 C19",
-                text="sort_as_subsets is proved for every finite graph and item order (67 obligations from the current source) and find_cycles is proved SOUND (every reported node is on a cycle, for any transitive relation containing the edges; 64 obligations): each yielded subset is exactly the ready items in input order, exhaustion emits every item once with predecessors strictly earlier, and exhaustion is impossible while a non-empty pred-closed set exists; at the raise the remaining set is a non-empty pred-closed subset (cycle by the Lean lemma). Bounded complement: same contract on all digraphs <= 3/4 nodes.",
-                note="assumed: finite sequences, value identity for elements; Lean lemma pred_closed_iff_cycle; termination not proved; sort is proved as the flattening of sort_as_subsets' contract (each item once, dependencies first; flat lemmas proved in Lean); completeness of find_cycles and _gen_edges are bounded only (exhaustive <= 3/4 nodes)"),
+                text="sort_as_subsets is proved for every finite graph and item order (67 obligations from the current source) and find_cycles is proved SOUND (every reported node is on a cycle, for any transitive relation containing the edges; 64 obligations) and COMPLETE (for an arbitrary ghost cycle c0 -> c1 -> ... -> ck -> c0 among the edges, c0 is reported; 137 obligations: the depth-first pass rooted at c0 ends with a visited set that is closed under the edges, hence -- induction along the cycle, lemma proved in Lean -- contains the whole cycle, whose last node recorded the edge back to c0), so it returns precisely the nodes that lie on some cycle; for sort_as_subsets: each yielded subset is exactly the ready items in input order, exhaustion emits every item once with predecessors strictly earlier, and exhaustion is impossible while a non-empty pred-closed set exists; at the raise the remaining set is a non-empty pred-closed subset (cycle by the Lean lemma). Bounded complement: same contract on all digraphs <= 3/4 nodes.",
+                note="assumed: finite sequences, value identity for elements; Lean lemma pred_closed_iff_cycle; termination not proved; sort is proved as the flattening of sort_as_subsets' contract (each item once, dependencies first; flat lemmas proved in Lean); _gen_edges is bounded only (exhaustive <= 3/4 nodes)"),
     "C25": dict(level="proof", technique=PROOF_TECH, design="DESIGN.md §5 C25",
                 text="QueuePool overflow accounting (_inc_overflow/_dec_overflow/_do_get/_do_return_conn) is proved in a monitor-with-interference model: other threads may change the shared counters and the queue at every statement outside the lock, at lock acquisition and around calls out of the pool, subject to the monitor invariant slots + pending == pool_size + _overflow, _overflow <= max_overflow, which is proved before every such point and at every exit (ghost claim accounting) — so slots <= pool_size + max_overflow under any schedule of these atomic steps; util.queue.Queue (put/get in all three blocking modes) against its representation invariant, with a ghost monotonic clock: a timed get/put raises Empty/Full only once its whole timeout has elapsed, however often Condition.wait returns early (stolen or spurious wake-ups); plus a syntactic lock-discipline obligation. Bounded complement: sequential pool histories and real waiter threads on deterministic schedules with stolen wake-ups.",
                 note="interleaving granularity = statements outside locks / whole critical sections (no explicit schedule enumeration); assumed contracts on _create_connection, record.close() (Full path) and Condition.wait(); 'one connection never held by two checkouts' beyond the queue contract is not decided; other pool classes not covered"),
